@@ -328,6 +328,24 @@ fn c03_chunking_3() { chunking_body(3) }
 #[kani::stub(super::decode_packet, stub_decode_packet_chain)]
 fn c03_chunking_4() { chunking_body(4) }
 
+// @gv props=C03,C11,C07 tier=quick required=yes fns=Decoder::reset_for_new_connection,Decoder::reset
+// @gv bounds="decoder in any of its four states (incl. the terminal error state latched by the previous connection) with 0..3 leftover buffered bytes and symbolic first byte / remaining length: a new connection always starts from the initial state"
+#[kani::proof]
+#[kani::unwind(8)]
+#[kani::stub(std::fmt::format, stub_format)]
+fn c03_reset_for_new_connection() {
+    let st = match kani::any::<u8>() % 4 { 0 => DecoderState::ReadPacketType, 1 => DecoderState::ReadTotalRemainingLength, 2 => DecoderState::ReadPacketBody, _ => DecoderState::TerminalError };
+    let pre: [u8; 3] = kani::any();
+    let k: usize = kani::any();
+    kani::assume(k <= 3);
+    let mut d = mk_decoder(st, &pre[..k], if kani::any() { Some(kani::any()) } else { None }, if kani::any() { Some(kani::any::<u16>() as usize) } else { None });
+    kani::cover!(st == DecoderState::TerminalError, "previous connection ended with a decode error");
+    d.reset_for_new_connection();
+    assert!(d.state == DecoderState::ReadPacketType, "gv: a new connection must start with a fresh decoder whatever happened on the previous one");
+    assert!(d.scratch.is_empty() && d.first_byte.is_none() && d.remaining_length.is_none());
+    std::mem::forget(d);
+}
+
 // @gv props=C03,C11 tier=quick required=yes fns=Decoder::decode_bytes
 // @gv bounds="decoder already in the terminal error state, any 0..2 further bytes: error again, nothing decoded, state unchanged"
 #[kani::proof]
